@@ -1,6 +1,7 @@
 import Proofs.Lemmas.Interp
 import Proofs.Lemmas.Ecdf
 import Proofs.Lemmas.Spectral
+import Proofs.Lemmas.VarShift
 import Proofs.Audit
 import Mathlib.Analysis.SpecialFunctions.Exp
 import Mathlib.Data.Real.StarOrdered
@@ -8,7 +9,7 @@ import Mathlib.Data.Real.StarOrdered
 /-!
 # C18 — BMCI estimates are the importance-weighted statistics of its database
 
-Property theorems only (helper lemmas: `Proofs/Lemmas/{ListAux,Window,Stats,Interp,Ecdf}.lean`).
+Property theorems only (helper lemmas: `Proofs/Lemmas/{ListAux,Window,Stats,Interp,Ecdf,Spectral,VarShift}.lean`).
 The model is `Model/Bmci.lean`.  All statements hold for an arbitrary linearly ordered
 field `α` (ℚ is what the driver runs, ℝ with `w = exp (-χ²/2)` is the real reading), for
 databases of any size, with duplicates, ties in the projection and in `x`, constant `x`.
@@ -193,23 +194,22 @@ theorem C18_excluded_weight_small (db : Db α) (hv : db.Valid) (q : Query α) (h
   rw [hwg _ (List.getElem_mem hk)]
   exact hg this.le
 
-/-- **C18_pruned_estimate_bound** — with non-negative weights the mean over the window differs
-from the mean over the whole database by at most the excluded entries' share of the total
-weight times the range of `x`:
-`|mean_pruned - mean_all| ≤ (Σ_excluded w / Σ_all w) · (hi - lo)`.
-(With `C18_window_sound` and weights anti-monotone in `χ²`, every excluded weight is below
-the weight at `χ² = 2·x2_max`.)
-
--- NOT PROVED (partial): the analogous bound for the standard deviation
--- (`|var_pruned - var_all| ≤ 2 · share · (hi - lo)²`) is only validated by the oracle. -/
+/-- **C18_pruned_estimate_bound** — with non-negative weights the estimates over the window
+differ from the estimates over the whole database by at most the excluded entries' share of
+the total weight, scaled by the range of `x`:
+`|mean_pruned - mean_all| ≤ share · (hi - lo)` and
+`|var_pruned - var_all| ≤ 2 · share · (hi - lo)²`, `share = Σ_excluded w / Σ_all w`.
+(With `C18_window_sound` / `C18_excluded_weight_small` every excluded weight is below the
+weight at `χ² = 2·x2_max`.)  `var` is the square of the standard deviation `predict` returns. -/
 theorem C18_pruned_estimate_bound (db : Db α) (hv : db.Valid) (q : Query α) (hq : q.restricted = true)
     (lo hi : α) (hrows : ∀ r ∈ db.rows, 0 ≤ r.w ∧ lo ≤ r.x ∧ r.x ≤ hi)
     (hW : 0 < ((window db q).map (·.w)).sum) :
     let qu : Query α := { q with restricted := false }
     let excluded := db.rows.filter (fun r => !(decide (q.sl ≤ r.proj) && decide (r.proj ≤ q.su)))
+    let share := (excluded.map (·.w)).sum / (db.rows.map (·.w)).sum
     ∃ m v m' v', predict db q = Est.val m v ∧ predict db qu = Est.val m' v' ∧
-      |m - m'| ≤ (excluded.map (·.w)).sum / (db.rows.map (·.w)).sum * (hi - lo) := by
-  intro qu excluded
+      |m - m'| ≤ share * (hi - lo) ∧ |v - v'| ≤ 2 * share * (hi - lo) ^ 2 := by
+  intro qu excluded share
   set P : Row α → Bool := fun r => decide (q.sl ≤ r.proj) && decide (r.proj ≤ q.su) with hP
   have hwin : window db q = db.rows.filter P := window_eq_filter db hv.projSorted q hq
   have hall : window db qu = db.rows := window_unrestricted db qu rfl
@@ -224,6 +224,8 @@ theorem C18_pruned_estimate_bound (db : Db α) (hv : db.Valid) (q : Query α) (h
     rw [← wsum_append, wsum_perm hperm]
   have hxsum : wxsum db.rows = wxsum (db.rows.filter P) + wxsum excluded := by
     rw [← wxsum_append, wxsum_perm hperm]
+  have hdev : ∀ c, wdev db.rows c = wdev (db.rows.filter P) c + wdev excluded c := by
+    intro c; rw [← wdev_append, wdev_perm hperm]
   have hall_pos : 0 < wsum db.rows := by rw [hsum]; linarith
   have h1 : predict db q = Est.val (wxsum (db.rows.filter P) / wsum (db.rows.filter P))
       (wdev (db.rows.filter P) (wxsum (db.rows.filter P) / wsum (db.rows.filter P)) / wsum (db.rows.filter P)) := by
@@ -232,8 +234,11 @@ theorem C18_pruned_estimate_bound (db : Db α) (hv : db.Valid) (q : Query α) (h
       (wdev db.rows (wxsum db.rows / wsum db.rows) / wsum db.rows) := by
     rw [predict_eq, hall, if_pos hall_pos]
   have h3 := mean_shift_bound (db.rows.filter P) excluded lo hi hin hout hA
+  have h4 := var_shift_bound (db.rows.filter P) excluded lo hi hin hout hA
+  simp only at h4
   rw [← hsum, ← hxsum] at h3
-  exact ⟨_, _, _, _, h1, h2, h3⟩
+  rw [← hsum, ← hxsum, ← hdev] at h4
+  exact ⟨_, _, _, _, h1, h2, h3, h4⟩
 
 /-! ## the x-sorted view of the window, cdf and quantiles -/
 
